@@ -4,8 +4,8 @@ import hashlib
 import random
 from fractions import Fraction
 
-from .common import EXPONENTS, PREFIX, And, Case, call, close, payload
-from .names_common import (DEFS, DEFS_BRACKET, DEFS_POW, OFFSETS, PREFIX_SYMS, TOL, dimvec, expected, float_q, label_of, oracle_var,
+from .common import EXPONENTS, PREFIX, And, Case, Or, band, call, close, payload
+from .names_common import (DEFS, DEFS_BRACKET, DEFS_POW, OFFSETS, PREFIX_SYMS, PREFIX_WORD, TOL, dimvec, expected, float_q, label_of, oracle_var,
                            readings, sym_registry, tables, unit_ok, vec_add, within)
 
 LEVEL = "other"
@@ -21,7 +21,11 @@ MANIFEST = dict(
           "symbol is then edited through modify, add or remove+add with a fresh symbolic scale, and the same spelling must follow the "
           "new definition) and ARGUMENT FORM (the unit handed over as a quantity v*u with v a z3 real, at Unit(), to, in_units, "
           "convert_to_units, to_value, unyt_array(), unyt_quantity(); as bytes, Unit object, Unit of another registry, sympy "
-          "expression; string coefficients in 9 magnitude classes). (b) GROUND: each of the 145 table rows (and the prefix table) "
+          "expression; string coefficients in 9 magnitude classes) and UNIT OBJECT (the unit asked for is a Unit object carrying its own "
+          "scale: made in the same registry, in a second registry whose 145 scales are independent z3 reals, or before / after an edit "
+          "of a constituent symbol; spelled differently from or exactly like the unit of the data; at to, in_units, convert_to_units, "
+          "to_value, get_conversion_factor, x + y and unyt_quantity(x, object)). Names that read as an SI-2022 prefix (ronna, quetta, "
+          "ronto, quecto) on a prefixable unit are checked against the SI values whenever a tree accepts them. (b) GROUND: each of the 145 table rows (and the prefix table) "
           "against an independently written definition table as exact-rational z3 facts |row-def| <= tol*def."),
     design="DESIGN.md section 4 C02",
     technique="symbolic execution of the real Python code over z3 real terms (QF_NRA with root witnesses); ground exact-rational SMT facts; replay")
@@ -41,7 +45,15 @@ EXPLANATION = (
     "every entry point that takes a unit is given the unit as a quantity v*u; v is a solver symbol over all positive reals, so a decision "
     "the library takes on the NUMBER (v == 1, v close to 1 ...) forks the path and the scale v*scale(u) is proved on every branch. "
     "While such a case runs, a symbolic number that unyt multiplies into a sympy expression is carried as a positive sympy Symbol with a "
-    "dimensionless registry row of that name (sympy cannot hold a solver term); see ASSUMPTIONS."
+    "dimensionless registry row of that name (sympy cannot hold a solver term); see ASSUMPTIONS. "
+    "Unit-object axis (C02/object): a Unit object has the scale of the registry and the moment it was made in, so two units with EQUAL "
+    "expressions can have different scales. Kinds: same registry; a second registry with its own scale symbols (f:<sym>), other and same "
+    "spelling; object made before an edit (modify/add/remove+add rotating, new scale a fresh symbol) with the data made after it, and the "
+    "data made before it with the object made after it, other and same spelling. For every kind and each of 7 entry points z3 proves the "
+    "object reports the scale of its own definition and result == x*scale1/scale2 for all x and all scales of both registries / epochs. "
+    "SI-2022 prefixes: unyt's table has 22 prefix spellings; the harness also carries R, Q, r, q with the SI Brochure values, puts "
+    "<prefix><prefixable symbol> candidates into the name universe (a tree that refuses them is outside C02) and reads names the tree's "
+    "own alias generator adds, so an added prefix is checked value by value (names) and as a ground fact (prefix/<p>, prefix word/<p>)."
 )
 ASSUMPTIONS = ["C02/form: the symbolic coefficient v of a quantity-valued unit enters unyt's sympy expression as a positive Symbol whose "
                "registry row is (v, dimensionless) (harness.c02.symbolic_coefficients, a sympy converter active only inside these cases; "
@@ -57,16 +69,20 @@ BOUNDS = {
              "3rd chunk of the expressions and every 4th chunk of the pairs with one constituent symbol edited (editing call rotating); "
              "ARGUMENT FORM: 24 unit expressions (12 compound, 12 atomic pairs) x {Unit, to, in_units, convert_to_units, to_value, unyt_array, "
              "unyt_quantity} with the unit given as a quantity of symbolic coefficient v > 0, x {bytes, Unit, Unit of another registry, sympy "
-             "expression}, x 9 coefficient magnitude classes x 2 shapes in strings",
+             "expression}, x 9 coefficient magnitude classes x 2 shapes in strings; UNIT OBJECT: 7 kinds (same / foreign / foreign same spelling / stale "
+             "target / stale target same spelling / stale source / stale source same spelling) x 7 entry points, each on one chunk of 2 pairs "
+             "(1 compound chunk, 1 atomic chunk, rotating); ~200 SI-2022 candidate names spread over the name chunks",
     "thorough": "all names; 6000 generated expressions (1-5 factors); 2000 compound pairs (<= 1 square root, |exponent| <= 3); every ordered pair of table symbols sharing a dimension "
                 "(~1100, with SI prefixes on prefixable ones); all rows (ground); define_unit over 5 definition shapes x 7 registry unit systems x 2 forms; "
                 "HISTORY: all names x 3 editing calls, every 4th chunk of the expressions and every 8th chunk of the pairs; ARGUMENT FORM: 96 unit "
-                "expressions x 7 entry points x symbolic coefficient, x 4 non-string forms, x 9 coefficient classes",
+                "expressions x 7 entry points x symbolic coefficient, x 4 non-string forms, x 9 coefficient classes; UNIT OBJECT: 7 kinds x 7 entry "
+                "points x 3 of 8 chunks of 2 pairs (rotating)",
 }
 OUTSIDE = ("unit strings that unyt rejects (acceptance of documented names is C14); offset units in conversions and compounds (C03/C08); "
            "logarithmic units in compounds; exponents outside E and root denominators > 6; IEEE rounding (A1); correctness of the "
            "independent definition table (trusted base of part b); histories other than request -> one edit of a constituent symbol -> "
-           "request (longer edit sequences, copies of registries, units created before the edit: C12/C13); the new value of modify given "
+           "request (longer edit sequences, copies of registries: C12/C13; units created before the edit are walked as conversion source / "
+           "target in C02/object only, with one edit); the new value of modify given "
            "as a quantity (C12); coefficients of a quantity-valued unit that are zero or negative; the numeric value of a coefficient "
            "written inside a unit STRING is not symbolic (sympy Number): 9 magnitude classes are enumerated, a defect that depends on "
            "another value of such a coefficient is not seen")
@@ -74,6 +90,26 @@ CONFORM = {"quick": 12, "thorough": 24}
 CHUNK = 100
 CHUNK_EDITED = 50     # smaller: on a tree where every alias fails, the counterexample models of one case stay affordable
 SEED = 20260929
+
+
+# SI prefixes adopted after unyt's table was written (SI Brochure 9th ed. v2.01, CGPM 2022 Res. 3), written here independently:
+# unyt does not have to accept them (acceptance is C14), but IF a tree accepts a name that reads as one of them on a prefixable
+# unit, the scale must be the SI value times the base scale - an accepted name is never outside the claim for lack of a table entry
+SI_2022 = {"R": (1e27, "ronna"), "Q": (1e30, "quetta"), "r": (1e-27, "ronto"), "q": (1e-30, "quecto")}
+
+
+def expected_ext(name, T):
+    """(prefix factor, canonical symbol), label: the documented reading of names_common.expected, else a reading with an SI-2022
+    prefix symbol (on a prefixable symbol / short alias) or prefix word (on an alias of a prefixable symbol, also title case)"""
+    exp = expected(name, T)
+    if exp is not None:
+        return exp, label_of(name, T)
+    for psym, (val, word) in SI_2022.items():
+        for pre, bases in ((psym, T.pb), (word, T.wb), (word.title(), {t: v[0] for t, v in T.tb.items()})):
+            rest = name[len(pre):]
+            if name.startswith(pre) and rest in bases:
+                return (val, bases[rest]), f"si2022-{word}/{rest}"
+    return None, "unread/" + name
 
 
 # ------------------------------------------------------------------------------------------------ expression trees
@@ -284,7 +320,7 @@ def atom_pool(mods):
     for name in inv_name_alternatives:
         if not name or name == "_" or "°" in name or name == "%" or name == "percent":
             continue
-        exp = expected(name, T)
+        exp = expected_ext(name, T)[0]
         if exp is None:
             continue
         pv, sym = exp
@@ -374,27 +410,28 @@ def gen_pairs(mods, count, seed=SEED + 1, max_factors=4):
 
 # ------------------------------------------------------------------------------------------------ cases
 
-def make_names_case(k, chunk):
+def make_names_case(k, chunk, n_base=None):
     def h(ctx):
         Unit = ctx.mods["unyt"].Unit
         T = tables()
         reg, S = sym_registry(ctx)
         n_ok = 0
         for name in chunk:
-            exp = expected(name, T)
+            exp, lab = expected_ext(name, T)
             r = call(Unit, name, registry=reg)
             if r[0] == "raise":
                 # not an accepted unit expression: outside C02 (C14 owns "every documented name can be used")
                 continue
             if exp is None:
-                ctx.require(f"documented/{name}", False, why="accepted name has no reading by the documented rules")
+                ctx.require(f"documented/{name}", False, why="accepted name has no reading by the documented rules or as an SI-2022 prefixed form")
                 continue
             pv, sym = exp
             E = oracle_var(ctx, "e:" + name, S[sym] * pv)
-            ctx.require(f"name/{label_of(name, T)}", unit_ok(ctx, r[1], E, T, exp), name=name, expected=f"{pv}*{sym}")
+            ctx.require(f"name/{lab}", unit_ok(ctx, r[1], E, T, exp), name=name, expected=f"{pv}*{sym}")
             ctx.observe(f"name/{name}", r[1].base_value)
             n_ok += 1
-        ctx.require("most names of the chunk are accepted", n_ok * 2 >= len(chunk))
+        # (vacuity guard; SI-2022 candidate names appended to the chunk are refused by a tree without them and do not count)
+        ctx.require("most names of the chunk are accepted", n_ok * 2 >= (len(chunk) if n_base is None else n_base))
     return Case(f"C02/names/{k:02d}", h, bounds=f"{len(chunk)} names, 145 symbolic scales", budget_s=600, weight=3)
 
 
@@ -513,7 +550,7 @@ def edit_symbol(ctx, reg, S, sym, tag, op, name=None):
     return new
 
 
-def make_names_edited_case(op, k, chunk):
+def make_names_edited_case(op, k, chunk, n_base=None):
     """history axis for names: every spelling is requested (so whatever unyt memoises per spelling exists), THEN the definition of
     its canonical symbol is edited (one symbol at a time: an edit of all symbols at once would hide a cache that is dropped
     per symbol), then the same spelling - alone and squared - must follow the registry's new definition"""
@@ -551,7 +588,8 @@ def make_names_edited_case(op, k, chunk):
             ctx.require(f"name after {op}/{label_of(name, T)}", ok, name=name, expected=f"{pv}*new scale of {sym}")
             ctx.observe(f"edited/{name}", r[1].base_value)
             n_ok += 1
-        ctx.require("most names of the chunk are accepted", n_ok * 2 >= len(chunk))
+        # (vacuity guard; SI-2022 candidate names appended to the chunk are refused by a tree without them and do not count)
+        ctx.require("most names of the chunk are accepted", n_ok * 2 >= (len(chunk) if n_base is None else n_base))
     return Case(f"C02/names-edited/{op}/{k:02d}", h, bounds=f"{len(chunk)} names, each requested, its symbol edited by {op}, requested again",
                 budget_s=600, weight=4, max_paths=64)
 
@@ -616,6 +654,134 @@ def make_to_edited_case(op, tag, k, pairs):
             ctx.observe(f"to/{i}", payload(r[1])[0])
     return Case(f"C02/to-edited/{op}/{tag}-{k:03d}", h, bounds=f"{len(pairs)} commensurable pairs, one constituent symbol edited by {op}",
                 budget_s=600, weight=6, max_paths=256)
+
+
+# ------------------------------------------------------------------------------------------------ unit-object axis
+
+def sym_registry_tagged(ctx, tag, unit_system=None):
+    """a SECOND registry with the rows of the default table and its own, independent scale symbols `<tag>:<sym>` (the same
+    spelling denotes a differently defined unit there, as `code_length` does in every yt dataset)"""
+    T = tables()
+    lut, S = {}, {}
+    for sym, (val, dims, off, tex, pref) in T.rows.items():
+        if val > 0 and sym != "dimensionless":
+            s = ctx.real(f"{tag}:{sym}", pos=True)
+            if not ctx.symbolic:
+                s = float(s)
+        else:
+            s = val
+        S[sym] = s
+        lut[sym] = (s, dims, off, tex, pref)
+    kw = {"unit_system": unit_system} if unit_system else {}
+    return ctx.mods["UR"].UnitRegistry(add_default_symbols=False, lut=lut, **kw), S
+
+
+# where the OBJECT comes from x which spelling it has relative to the unit of the data
+OBJECT_KINDS = ["same", "foreign", "foreign-same-spelling", "stale", "stale-same-spelling", "stale-source", "stale-source-same-spelling"]
+OBJECT_ENTRIES = ["to", "in_units", "convert_to_units", "to_value", "factor", "add", "unit-ctor"]
+
+
+def make_object_case(kind, entry, k, pairs, op):
+    """unit-OBJECT axis: a Unit object carries its own scale (that of the registry and the moment it was made in). The pair
+    (unit of the data, unit asked for) is walked over: object of the same registry / of a second registry whose symbols have other
+    (independent, symbolic) scales / made before an edit of a constituent symbol; with another spelling and with the SAME spelling
+    as the data's unit (equal expressions, different scales); at every entry point that accepts a Unit object."""
+    def h(ctx):
+        unyt = ctx.mods["unyt"]
+        Unit = unyt.Unit
+        T = tables()
+        reg, S = sym_registry(ctx)
+        if kind.startswith("foreign"):
+            reg2, S2 = sym_registry_tagged(ctx, "f")
+        for i, (t1, t2) in enumerate(pairs):
+            lab = f"{k}.{i}"
+            same_spelling = kind.endswith("same-spelling")
+            tt = t1 if same_spelling else t2                       # the tree of the unit asked for
+            s1, s2 = render(t1), render(tt)
+            x = ctx.real(f"x{i}")
+            if kind == "same":
+                src = ctx.quantity(x, s1, reg)
+                E1 = oracle_scale(t1, S)
+                target = Unit(s2, registry=reg)
+                E2 = oracle_scale(tt, S)
+            elif kind.startswith("foreign"):
+                src = ctx.quantity(x, s1, reg)
+                E1 = oracle_scale(t1, S)
+                target = Unit(s2, registry=reg2)
+                E2 = oracle_scale(tt, S2)
+            elif kind.startswith("stale-source"):
+                # the DATA (and its unit object) are from before the edit, the unit asked for is made after it
+                src = ctx.quantity(x, s1, reg)
+                E1 = oracle_scale(t1, S)
+                ats = atoms_of(t1)
+                edit_symbol(ctx, reg, S, ats[(k + i) % len(ats)].sym, f"{i}", op)
+                target = Unit(s2, registry=reg)
+                E2 = oracle_scale(tt, S)
+            else:
+                # the unit object asked for is from before the edit, the data are made after it
+                target = Unit(s2, registry=reg)
+                E2 = oracle_scale(tt, S)
+                ats = atoms_of(tt)
+                edit_symbol(ctx, reg, S, ats[(k + i) % len(ats)].sym, f"{i}", op)
+                src = ctx.quantity(x, s1, reg)
+                E1 = oracle_scale(t1, S)
+            Eu = oracle_var(ctx, f"u:{i}", E2)
+            Ex = oracle_var(ctx, f"e:{i}", x * E1 / E2)
+            info = dict(frm=s1, to=s2, kind=kind)
+            ctx.require(f"the unit object reports the scale of its own definition/{lab}", close(target.base_value, Eu), **info)
+            if entry in ("to", "in_units", "to_value"):
+                r = call(getattr(src, entry), target)
+                ctx.require(f"x.{entry}(Unit object) == x*scale1/scale2/{lab}", r[0] == "ok" and close(payload(r[1])[0], Ex), got=str(r[1])[:80], **info)
+                if r[0] == "ok" and entry != "to_value":
+                    ctx.require(f"x.{entry}(Unit object) is labelled with a unit of scale2/{lab}", close(r[1].units.base_value, Eu), **info)
+                if r[0] == "ok":
+                    ctx.observe(f"{entry}/{i}", payload(r[1])[0])
+            elif entry == "convert_to_units":
+                r = call(src.convert_to_units, target)
+                ctx.require(f"x.convert_to_units(Unit object) == x*scale1/scale2/{lab}", r[0] == "ok" and close(payload(src)[0], Ex),
+                            got=str(r[1])[:80], **info)
+                if r[0] == "ok":
+                    ctx.require(f"x.convert_to_units(Unit object) is labelled with a unit of scale2/{lab}", close(src.units.base_value, Eu), **info)
+                    ctx.observe(f"{entry}/{i}", payload(src)[0])
+            elif entry == "factor":
+                r = call(src.units.get_conversion_factor, target)
+                Ef = oracle_var(ctx, f"f:{i}", E1 / E2)
+                ctx.require(f"u1.get_conversion_factor(Unit object) == scale1/scale2, no offset/{lab}",
+                            r[0] == "ok" and And(close(r[1][0], Ef), r[1][1] is None or r[1][1] == 0), got=str(r[1])[:80], **info)
+                if r[0] == "ok":
+                    ctx.observe(f"{entry}/{i}", r[1][0])
+            elif entry == "add":
+                y = ctx.real(f"y{i}")
+                other = ctx.quantity(y, target)
+                r = call(lambda: src + other)
+                ok = r[0] == "ok"
+                if ok:
+                    got_si = payload(r[1])[0] * r[1].units.base_value
+                    ok = close(got_si, x * E1 + y * E2, extra=band(x * E1, y * E2))
+                    ok = And(ok, Or(close(r[1].units.base_value, E1), close(r[1].units.base_value, Eu)))
+                ctx.require(f"x + y (y in the Unit object): SI magnitude x*scale1 + y*scale2/{lab}", ok, got=str(r[1])[:80], **info)
+                if r[0] == "ok":
+                    ctx.observe(f"{entry}/{i}", payload(r[1])[0])
+            elif entry == "unit-ctor":
+                # data constructed WITH the object, then expressed in the data's unit given as a string of its registry
+                made = call(unyt.unyt_quantity, obj0_of(ctx, x), target)
+                ok = made[0] == "ok"
+                if ok:
+                    ok = close(made[1].units.base_value, Eu)
+                    back = call(made[1].to, src.units)
+                    ok = And(ok, back[0] == "ok" and close(payload(back[1])[0], oracle_var(ctx, f"b:{i}", x * E2 / E1)))
+                ctx.require(f"unyt_quantity(x, Unit object).to(unit of the other kind) == x*scale2/scale1/{lab}", ok, got=str(made[1])[:80], **info)
+            else:
+                raise KeyError(entry)
+    return Case(f"C02/object/{kind}/{entry}/{k:03d}", h, bounds=f"{len(pairs)} commensurable pairs, the unit asked for is a Unit object ({kind})",
+                budget_s=600, weight=5, max_paths=256)
+
+
+def obj0_of(ctx, x):
+    if ctx.symbolic:
+        from symx.core import obj0
+        return obj0(x)
+    return x
 
 
 # ------------------------------------------------------------------------------------------------ argument-form axis
@@ -768,9 +934,13 @@ def make_table_case():
             ctx.require(f"offset/{sym}", within(ctx, float_q(row[2]), off, 8 * Fraction(1, 2**52)) if off else float(row[2]) == 0.0,
                         offset=row[2], definition=float(off))
             ctx.observe(f"row/{sym}", float(v))
+        words = {v: k for k, v in PREFIX_WORD.items()}
+        words.update({"µ": "micro", "μ": "micro"})
         for p, (val, word) in unit_prefixes.items():
-            ctx.require(f"prefix/{p}", p in PREFIX and within(ctx, float_q(val), float_q(PREFIX[p]), 0), value=val)
-        ctx.require("prefix table complete", set(unit_prefixes) == set(PREFIX))
+            ref, rword = (PREFIX[p], words.get(p)) if p in PREFIX else SI_2022.get(p, (None, None))
+            ctx.require(f"prefix/{p}", ref is not None and within(ctx, float_q(val), float_q(ref), 0), value=val, si=ref)
+            ctx.require(f"prefix word/{p}", ref is not None and word == rword, word=word, si=rword)
+        ctx.require("prefix table complete", set(PREFIX) <= set(unit_prefixes))
     return Case("C02/table/rows", h, bounds="145 rows + offsets + 22 prefixes, exact rationals (ground)")
 
 
@@ -830,8 +1000,18 @@ def cases(tier, mods):
     names = list(inv_name_alternatives)
     T = tables()
     names += [p + s for p in PREFIX_SYMS for s in T.syms if s in T.prefixable and p + s not in inv_name_alternatives]
-    for k in range(0, len(names), CHUNK):
-        out.append(make_names_case(k // CHUNK, names[k:k + CHUNK]))
+    have = set(names)
+    extra = [p + s for p in SI_2022 for s in T.syms if s in T.prefixable and p + s not in have]        # refused by a tree without them
+
+    def chunked(size):
+        """chunks of the name universe as before, the SI-2022 candidates dealt out over them (appended)"""
+        chunks = [names[k:k + size] for k in range(0, len(names), size)]
+        sizes = [len(c) for c in chunks]
+        for j, n in enumerate(extra):
+            chunks[j % len(chunks)].append(n)
+        return list(zip(chunks, sizes))
+    for k, (chunk, nb) in enumerate(chunked(CHUNK)):
+        out.append(make_names_case(k, chunk, nb))
     n_expr, n_pairs, per_e, per_p, mf = (400, 160, 8, 2, 4) if tier == "quick" else (6000, 2000, 10, 2, 5)
     trees = gen_expressions(mods, n_expr, max_factors=mf)
     for k in range(0, len(trees), per_e):
@@ -844,9 +1024,9 @@ def cases(tier, mods):
         out.append(make_to_case("atomic", k // 3, ap[k:k + 3]))
     # history axis: the same three families after an edit of the registry (every name x every editing call; a slice of the
     # generated expressions and pairs, editing call rotating)
-    for k in range(0, len(names), CHUNK_EDITED):
+    for k, (chunk, nb) in enumerate(chunked(CHUNK_EDITED)):
         for op in EDIT_OPS:
-            out.append(make_names_edited_case(op, k // CHUNK_EDITED, names[k:k + CHUNK_EDITED]))
+            out.append(make_names_edited_case(op, k, chunk, nb))
     step_e, step_p = (3, 4) if tier == "quick" else (4, 8)
     for j, k in enumerate(range(0, len(trees), per_e * step_e)):
         out.append(make_expr_edited_case(EDIT_OPS[j % len(EDIT_OPS)], k // per_e, trees[k:k + per_e]))
@@ -860,6 +1040,19 @@ def cases(tier, mods):
     for entry in FORM_ENTRIES:
         for k in range(0, len(fp), 2):
             out.append(make_form_case(entry, k // 2, fp[k:k + 2]))
+    # unit-object axis: the unit asked for is a Unit OBJECT (same registry / second registry with independent symbolic scales /
+    # made before an edit), spelled differently from or exactly like the unit of the data
+    n_obj = 1 if tier == "quick" else 4
+    op_pairs = pairs[3::max(1, len(pairs) // (2 * n_obj))][:2 * n_obj] + ap[5::max(1, len(ap) // (2 * n_obj))][:2 * n_obj]
+    chunks = [op_pairs[k:k + 2] for k in range(0, len(op_pairs), 2)]
+    per = 1 if tier == "quick" else 3            # chunks per (kind, entry) combination, rotating over the chunks
+    j = 0
+    for kind in OBJECT_KINDS:
+        for entry in OBJECT_ENTRIES:
+            for c in range(per):
+                k = (j + c) % len(chunks)
+                out.append(make_object_case(kind, entry, k, chunks[k], EDIT_OPS[(j + c) % len(EDIT_OPS)]))
+            j += 1
     return out
 
 
